@@ -15,6 +15,9 @@ length-prefixed lists of rationals, matrices row-major with `n*n` entries):
          script item: `cbits ebits thrbits` (used for the step after that many accepted steps);
          xnew = (x + tau*c) + (Fx*tau)/8, xhat = xnew + e*tau, Fxnew = xnew/2 + tau
          -> <times bits> | <sols bits> | taubits | outOfFuel | <accepted flags>
+  constf t0bits taubits tendbits   -> <times bits> | #states     (constDriver over Float, num_iter in double arithmetic)
+  adaptr errorder sfbits tau0bits tendbits t0bits fuel <script: idx taubits ok rbits>   recorded real run
+         -> <times bits> | taubits | outOfFuel       (controller + time accumulation from t0)
   dirkf  s rows <A bits> n <M> <K> <d> <g> <x> taubits fxflag [<Fx>]   (all IEEE bit patterns; F y = −K y − d∘y³ + g)
          -> ok <xnew> | <xest or -> | <Fxnew or -> | fcalls        (Float instantiation of dirkStep)
   rosf   s <A> <G> <b> hasbhat [<bhat>] n <M> <K> <d> <g> <x> taubits  -> ok <xnew> | <xest or ->
@@ -202,6 +205,56 @@ def doAdapt : P String := do
       | .newtonFailed => "F")
     pure s!"{showList showF o.times} | {showList (fun (s : Float × Nat) => showF s.1) o.sols} | {showF o.tau} | {if o.outOfFuel then 1 else 0} | {showList id acc}"
 
+/-- `constf`: the constant-step driver (`constDriver`) over `Float` with a stepper that always
+succeeds; `num_iter = int(ceil((t_end - t0) / tau))` in the same double arithmetic as the code
+(a non-positive quotient gives an empty `range`). -/
+instance : NatCast Float := ⟨Nat.toFloat⟩
+
+def doConstF : P String := do
+  let t0 ← fbits; let tau ← fbits; let tend ← fbits
+  let qt := Float.ceil ((tend - t0) / tau)
+  let numIter : Nat := if qt > 0.0 then qt.toUInt64.toNat else 0
+  if numIter > 100000 then failure
+  let step : Nat → Option Nat → Except StepErr (Nat × Option Nat) := fun k _ => .ok (k + 1, none)
+  match constDriver step (0 : Nat) tau t0 numIter with
+  | .error _ => pure "err-AssertionError"
+  | .ok (ts, xs) => pure s!"{showList showF ts} | {xs.length}"
+
+
+/-- `adaptr`: the adaptive controller (`adaptLoop`, Float) driven by a *recorded* run of a real
+stepper: the script lists every stepper call the implementation made as
+`idx taubits ok rbits` (`idx` = number of accepted steps before the call, `r` = the scaled error
+the code computed, `ok = 0` = NoConvergenceError).  The model looks its step up by `(idx, tau)`;
+a call the implementation never made is answered `err-miss`.  Output: times, tau, outOfFuel. -/
+structure RecCall where
+  idx : Nat
+  tau : Float
+  ok : Bool
+  r : Float
+
+open Pyiga.FloatVec in
+def doAdaptR : P String := do
+  let q ← nat
+  let sf ← fbits; let tau0 ← fbits; let tend ← fbits; let t0 ← fbits
+  let fuel ← nat
+  let script ← list (do
+    let i ← nat; let t ← fbits; let ok ← bool; let r ← fbits
+    pure ({ idx := i, tau := t, ok := ok, r := r } : RecCall))
+  if q = 0 then failure
+  let step : (Nat × Float) → Float → Option (Nat × Float) →
+      Except StepErr ((Nat × Float) × (Nat × Float) × Option (Nat × Float)) :=
+    fun (idx, _) tau _ =>
+      match script.find? (fun e => e.idx == idx && e.tau.toBits == tau.toBits) with
+      | none => .error .assertion
+      | some e => if e.ok then .ok ((idx + 1, 0.0), (idx + 1, e.r), none) else .error .noConvergence
+  let ratio : (Nat × Float) → (Nat × Float) → (Nat × Float) → Float := fun _ _ xh => xh.2
+  let ex : Float := (-1.0) / q.toFloat
+  let ctl : Ctl Float := { one := 1.0, tiny := 1e-15, lo := 0.2, hi := 5.0, half := 0.5, stepFactor := sf }
+  match adaptDriver step ratio (fun r => Float.pow r ex) ctl (0, 0.0) tau0 tend t0 fuel with
+  | .error _ => pure "err-miss"
+  | .ok o => pure s!"{showList showF o.times} | {showF o.tau} | {if o.outOfFuel then 1 else 0}"
+
+
 /-! ### nonlinear right-hand sides through the `Float` instantiation
 
 `F(y) = −K·y − d∘y∘y∘y + g`, `J(y) = −K − 3·diag(d∘y∘y)`. -/
@@ -286,6 +339,8 @@ def request : P String := do
   | "newton" => doNewton
   | "const" => doConst
   | "adapt" => doAdapt
+  | "adaptr" => doAdaptR
+  | "constf" => doConstF
   | "dirkf" => doDirkF
   | "rosf" => doRosF
   | "rkres" => do let s ← nat; let A ← pMat s; let w ← list rat; pure (showGroups (rkResiduals A w))
